@@ -1,5 +1,6 @@
 mod adapt;
 mod engine;
+mod lunmodel;
 mod model;
 mod props;
 
